@@ -2,7 +2,8 @@
 import itertools
 
 MODEL = "C12"
-MODEL_ENTRY = "run_C12X"     # the extended alphabet of Model/Dispatcher.v (xstep); base ops behave as in run_C12
+MODEL_ENTRY = "run_C12XN"    # Model/Dispatcher.v: run_C12X (the extended alphabet, xstep; base ops behave as in run_C12) for a
+                             # sequence without a dispatching listener, else run_C12N (the third layer, nstep)
 PROP_FILES = ["Props/C12.v"]
 RULE = ("op sequences over {add(event in 2, priority in {-1,0,5}, stops?), dispatch(event in 3), get_listeners(e0), "
         "get_listeners()} exhaustive to length 4 (quick) / 5 (thorough); over a mixed alphabet of 27 ops that adds "
@@ -10,14 +11,24 @@ RULE = ("op sequences over {add(event in 2, priority in {-1,0,5}, stops?), dispa
         "same event other priority, other event), add without a priority (default), dispatch of an ALREADY STOPPED event, and "
         "a listener that registers a new listener while it is called (same event at a lower / equal / higher priority, other "
         "event): exhaustive to length 3, and to length 4 (quick) / 5 (thorough) over 14 of them; seeded random sequences to "
-        "length 40 over all op kinds (six priorities); every sequence is followed by a fixed query suffix "
+        "length 40 over all op kinds (priorities from {-1, 0, 5, 2, 7, -3} and, in 30 % of the draws, from 20 values up to 2^40 "
+        "around the byte and word limits); the three events are called by one of six NAME SETS (e0/e1/e2; dotted names that are "
+        "prefixes of each other; names differing only in case or a trailing blank; '', ' ', '*'); callables are of three kinds by "
+        "creation order - a function, a function with other parameter names, a bound method of which every use (registration "
+        "again, get_listener_priority) fetches a new equal object; NESTED dispatches - a listener that dispatches a later event on "
+        "the dispatcher it is handed - exhaustive to length 3 (quick) / 4 (thorough) over 19 ops and in a fifth of the random "
+        "sequences (model: the third layer of Model/Dispatcher.v, entry run_C12N, theorem nrun_refines; the oracle computes the "
+        "expected flat call log from the registrations on its own; every dispatch, outer or nested, hands ITS name, ITS one event "
+        "object and the dispatcher to its listeners); every sequence is followed by a fixed query suffix "
         "(has_listeners(None/e), get_listener_priority for every (event, callable), dispatch and get_listeners per event); "
         "registrations go straight to an EventDispatcher, or through ApplicationConfig.add_event_listener (dispatcher made "
         "on demand / set beforehand); every listener records the (event, event_name, dispatcher) it is called with and the "
         "value dispatch returns is recorded; non-trivial = >= 2 registrations and >= 1 dispatch before the suffix; distinct "
         "by (op sequence, registration route)")
 TRUSTED = ["callables are identified by creation order; a listener created by another listener during a dispatch gets the next id "
-           "at that moment (harness and model count alike)"]
+           "at that moment (harness and model count alike)",
+           "nested dispatches: a dispatching callable is registered again only for events before the one it dispatches (harness, "
+           "oracle and model skip the op otherwise: no cycles); the model's dispatch takes fuel 8, the generator nests 3 deep at most"]
 ASSUMPTIONS = ["priorities are ints",
                "for an event where one callable is registered more than once the oracle says nothing about multiplicity, order "
                "and get_listener_priority (the statement's 'each once' does not decide whether that is one listener or two); the "
@@ -27,6 +38,16 @@ ASSUMPTIONS = ["priorities are ints",
                "documented contract of the anchored class"]
 
 PRIOS = [-1, 0, 5]
+# priorities beyond one digit / one byte / one machine word (random histories only; the statement's "3 values" are any 3)
+BIG_PRIOS = [2, 7, -3, 10, 11, -10, 100, 127, 128, 129, -128, -129, 255, 256, 1000, -1000, 65536, 2 ** 31, -2 ** 31 - 1, 2 ** 40]
+# what the three events are called: the model knows events by number; the dispatcher must keep APART names that are prefixes
+# of each other, dotted "namespaces", names that differ in case or in surrounding blanks, the empty name
+NAMESETS = [["e0", "e1", "e2"],
+            ["console.pre-handle", "console", "console.pre-handle.late"],
+            ["pre-handle", "PRE-HANDLE", "pre-handle "],
+            ["", " ", "*"],
+            ["a.b", "a.b.c", "a"],
+            ["config", "Config", "config.x"]]
 ALPHA = [[0, e, p, s] for e in (0, 1) for p in PRIOS for s in (0, 1)] + [[1, e] for e in (0, 1, 2)] + [[3, 0], [4]]
 # op kinds beyond the base alphabet: 2 has_listeners, 5 get_listener_priority(event, callable), 6 add an already registered
 # callable again [6, event, priority, callable], 7 add with the default priority [7, event, stops], 8 dispatch an already
@@ -39,11 +60,21 @@ XNEW = [[2, [0]], [2, None], [5, 0, 0], [5, 1, 0], [5, 0, 1],
 MIX = [[0, 0, 0, 0], [0, 0, 0, 1], [0, 0, 5, 0], [0, 0, 5, 1], [0, 1, 0, 0], [1, 0], [1, 1], [3, 0], [4]] + XNEW
 MIX4 = [[0, 0, 0, 0], [0, 0, 5, 0], [0, 0, 0, 1], [1, 0], [3, 0], [4], [2, [0]], [5, 0, 0],
         [6, 0, 0, 0], [6, 0, 5, 0], [7, 0, 0], [8, 0], [9, 0, 0, 0, 0], [9, 0, 0, 0, 5]]
+# NESTED dispatch: op 10 = add a listener that, when called, dispatches another event on the dispatcher it is handed
+# [10, event, priority, event2, stops] (event2 > event: no cycles).  Model: the third layer of Model/Dispatcher.v (nstep,
+# run_C12N; theorem nrun_refines); the oracle computes the expected flat call log from the registrations on its own.
+NEST = [[10, 0, 0, 1, 0], [10, 0, 5, 1, 0], [10, 0, 0, 1, 1], [10, 0, 0, 2, 0], [10, 1, 0, 2, 0], [10, 1, 5, 2, 1],
+        [0, 0, 0, 0], [0, 0, 5, 0], [0, 0, 0, 1], [0, 1, 0, 0], [0, 1, 5, 1], [0, 1, -1, 0], [0, 2, 0, 0], [0, 2, 0, 1],
+        [9, 1, 0, 1, 5], [9, 1, 0, 0, 5], [1, 0], [1, 1], [8, 0]]
 
 
 def n_static(ops):
     """callables the ops themselves create (those a listener creates during a dispatch come on top)"""
-    return sum(1 for o in ops if o[0] in (0, 7, 9))
+    return sum(1 for o in ops if o[0] in (0, 7, 9, 10))
+
+
+def is_nested(case):
+    return any(o[0] == 10 for o in case["ops"])
 
 
 def suffix(ops):
@@ -54,20 +85,31 @@ def suffix(ops):
     return suf
 
 
-def rand_ops(rng, k):
+def rand_prio(rng):
+    return rng.choice(PRIOS + [2, 7, -3]) if rng.random() < 0.7 else rng.choice(BIG_PRIOS)
+
+
+def rand_ops(rng, k, nested=False):
     ops, nc = [], 0
     for _ in range(k):
         r = rng.random()
         e = rng.randint(0, 1)
-        p = rng.choice(PRIOS + [2, 7, -3])
-        if r < 0.34:
+        p = rand_prio(rng)
+        if nested and r < 0.12:
+            e = rng.randint(0, 1)
+            ops.append([10, e, p, rng.randint(e + 1, 2), 1 if rng.random() < 0.2 else 0])
+            nc += 1
+        elif nested and r < 0.20:
+            ops.append([0, 2, p, 1 if rng.random() < 0.2 else 0])         # somebody to hear the innermost event
+            nc += 1
+        elif r < 0.34:
             ops.append([0, e, p, 1 if rng.random() < 0.15 else 0])
             nc += 1
         elif r < 0.40:
             ops.append([7, e, 1 if rng.random() < 0.15 else 0])
             nc += 1
         elif r < 0.47:
-            ops.append([9, e, p, rng.randint(0, 1), rng.choice(PRIOS + [2, 7, -3])])
+            ops.append([9, e, p, rng.randint(0, 1), rand_prio(rng)])
             nc += 1
         elif r < 0.56:
             ops.append([6, e, p, rng.randrange(nc + 1)])
@@ -92,28 +134,43 @@ def gen(rng, tier, info):
     cases = []
     for k in range(0, depth + 1):
         for seq in itertools.product(ALPHA, repeat=k):
-            cases.append({"ops": list(seq)})
+            # the event names rotate through NAMESETS (the model knows events by number)
+            cases.append({"ops": list(seq), "names": len(cases) % len(NAMESETS)} if k >= 2 else {"ops": list(seq)})
     n_base = len(cases)
     for k in range(1, 4):
         for seq in itertools.product(MIX, repeat=k):
             if any(o[0] in (2, 5, 6, 7, 8, 9) for o in seq):
-                cases.append({"ops": list(seq), "via": len(cases) % 3})
+                cases.append({"ops": list(seq), "via": len(cases) % 3, "names": (len(cases) // 3) % len(NAMESETS)})
     n_mix = len(cases) - n_base
     for k in range(4, depth + 1):
         for seq in itertools.product(MIX4, repeat=k):
             if any(o[0] in (2, 5, 6, 7, 8, 9) for o in seq):
                 cases.append({"ops": list(seq), "via": 0})
     n_mix4 = len(cases) - n_base - n_mix
+    # nested dispatches: every sequence of <= 3 (quick) / 4 (thorough) ops of NEST with a dispatching listener
+    # and an outer dispatch after it, + random ones
+    n_nest = 0
+    for k in range(2, {"quick": 3, "thorough": 4, "search": 3}[tier] + 1):
+        for seq in itertools.product(NEST, repeat=k):
+            first = next((i for i, o in enumerate(seq) if o[0] == 10), None)
+            if first is not None and any(o[0] == 1 and o[1] <= 1 for o in seq[first + 1:]):
+                cases.append({"ops": list(seq), "via": n_nest % 3, "names": n_nest % len(NAMESETS)})
+                n_nest += 1
     info["exhaustive"] = True
     lens = {}
-    for _ in range(nrand):
+    n_rand_nested = 0
+    for i in range(nrand):
         k = rng.randint(depth + 1, 40)
         lens[k // 10 * 10] = lens.get(k // 10 * 10, 0) + 1
-        cases.append({"ops": rand_ops(rng, k), "via": rng.randint(0, 2)})
+        nested = i % 5 == 4
+        n_rand_nested += nested
+        cases.append({"ops": rand_ops(rng, k, nested), "via": rng.randint(0, 2), "names": rng.randrange(len(NAMESETS))})
     info["distribution"] = {"exhaustive_sequences_base_alphabet": n_base, "exhaustive_max_len": depth,
                             "exhaustive_sequences_mixed_alphabet_len_<=3": n_mix,
                             "exhaustive_sequences_14_op_mixed_alphabet_len_4..%d" % depth: n_mix4,
-                            "random_sequences": nrand,
+                            "exhaustive_sequences_with_a_nested_dispatch": n_nest,
+                            "random_sequences": nrand, "of_which_with_nested_dispatches": n_rand_nested,
+                            "event_name_sets": len(NAMESETS), "priorities_in_random_sequences": sorted(set(PRIOS + [2, 7, -3] + BIG_PRIOS)),
                             "random_len_histogram": {str(k): v for k, v in sorted(lens.items())},
                             "note": "the statement's 'exhaustive to length 7' is not what runs: 17^7 sequences; see RULE"}
     return cases
@@ -136,15 +193,19 @@ def wire(case):
 def describe(case):
     names = {0: "add", 1: "dispatch", 2: "has_listeners", 3: "get_listeners", 4: "get_listeners()", 5: "get_listener_priority",
              6: "add-registered-callable-again(event, priority, callable)", 7: "add-with-default-priority(event, stops)",
-             8: "dispatch-already-stopped-event", 9: "add-listener-that-registers(event, priority, event2, priority2)"}
+             8: "dispatch-already-stopped-event", 9: "add-listener-that-registers(event, priority, event2, priority2)",
+             10: "add-listener-that-dispatches(event, priority, event2, stops)"}
     via = ["EventDispatcher.add_listener", "ApplicationConfig.add_event_listener (dispatcher made on demand)",
            "ApplicationConfig.add_event_listener (dispatcher set beforehand)"][case.get("via", 0)]
-    return "registrations through %s; ops (then query suffix): " % via + "; ".join("%s%s" % (names[o[0]], tuple(o[1:])) for o in case["ops"])
+    return "registrations through %s; events 0,1,2 are called %r; callable k is a function (k %% 3 = 0), a function with other parameter names (1), a bound method fetched anew for every use (2); ops (then query suffix): " % (via, NAMESETS[case.get("names", 0)]) + \
+        "; ".join("%s%s" % (names[o[0]], tuple(o[1:])) for o in case["ops"])
 
 
 def run_impl(case):
+    import types
     from clikit.api.event import EventDispatcher, Event
     via = case.get("via", 0)
+    evname = NAMESETS[case.get("names", 0)]
     config = None
     if via == 0:
         disp = [EventDispatcher()]
@@ -162,25 +223,73 @@ def run_impl(case):
             disp[0] = config.dispatcher
         return disp[0] if disp[0] is not None else EventDispatcher()
 
-    calls = []        # (callable id, event object, event name, dispatcher object) of the running dispatch
-    callables = []    # creation order = id
+    # one frame per dispatch in progress (the harness's own, or one made by a listener): [event name, event object handed in
+    # or None, calls made by THIS dispatch as (callable id, event, event name, dispatcher)]
+    frames = []
+    flat = []         # callable ids of the running outer dispatch in call order, nested ones included
+    bad_args = []
+    getters = []      # creation order = id; getters[k]() is the object handed to the API for callable k
+    target = []       # per callable: the event it dispatches when called, or None
 
-    def mk(stops, registers):
-        cid = len(callables)
+    def check_frame(fr, dd, ret):
+        """the listeners of one dispatch were handed its name, its dispatcher and ONE event object: the one given, else a new
+        one - which dispatch returns"""
+        name, ev, calls = fr
+        ok = all(c[2] == name and c[3] is dd and isinstance(c[1], Event) for c in calls) and len(set(id(c[1]) for c in calls)) <= 1 \
+            and (ev is None or all(c[1] is ev for c in calls))
+        ret_ok = isinstance(ret, Event) and (ret is ev if ev is not None else all(c[1] is ret for c in calls))
+        return ok, ret_ok
 
-        def listener(event, event_name, dispatcher):
-            calls.append((cid, event, event_name, dispatcher))
+    def mk(stops, registers, dispatches=None):
+        cid = len(getters)
+
+        def body(event, event_name, dispatcher):
+            if frames:
+                # a new event object per dispatch: never the one of the dispatch this one is nested in
+                if len(frames) > 1 and any(c[1] is event for c in frames[-2][2]):
+                    bad_args.append(cid)
+                frames[-1][2].append((cid, event, event_name, dispatcher))
+            flat.append(cid)
             if stops:
                 event.stop_propagation()
             if registers is not None:
                 # uses the dispatcher it was handed, as a listener does
-                dispatcher.add_listener("e%d" % registers[0], mk(False, None), registers[1])
-        listener.cid = cid
-        callables.append(listener)
-        return listener
+                dispatcher.add_listener(evname[registers[0]], mk(False, None), registers[1])
+            if dispatches is not None:
+                fr = [evname[dispatches], None, []]
+                frames.append(fr)
+                try:
+                    ret = dispatcher.dispatch(evname[dispatches])
+                finally:
+                    frames.pop()
+                ok, ret_ok = check_frame(fr, dispatcher, ret)
+                if not (ok and ret_ok):
+                    bad_args.append(cid)
+
+        # three kinds of callable: a function, a function whose parameters have other names, a bound method of which every
+        # use fetches a NEW object (equal, not identical - what `config.method` gives each time it is written)
+        if cid % 3 == 0:
+            def listener(event, event_name, dispatcher):
+                body(event, event_name, dispatcher)
+            listener.cid = cid
+            get = lambda: listener
+        elif cid % 3 == 1:
+            def listener(e, n, dsp):
+                body(e, n, dsp)
+            listener.cid = cid
+            get = lambda: listener
+        else:
+            def on_event(self, event, event_name, dispatcher):
+                body(event, event_name, dispatcher)
+            on_event.cid = cid
+            holder = type("Holder", (), {})()
+            get = lambda: types.MethodType(on_event, holder)
+        getters.append(get)
+        target.append(dispatches)
+        return get()
 
     def add(ev, l, prio=None):
-        name = "e%d" % ev
+        name = evname[ev]
         if config is not None:
             (config.add_event_listener(name, l) if prio is None else config.add_event_listener(name, l, prio))
         else:
@@ -198,40 +307,44 @@ def run_impl(case):
             elif o[0] == 9:
                 add(o[1], mk(False, (o[3], o[4])), o[2])
                 obs.append([0])
+            elif o[0] == 10:
+                add(o[1], mk(bool(o[4]), None, o[3]), o[2])
+                obs.append([0])
             elif o[0] == 6:
-                if o[3] < len(callables):
-                    add(o[1], callables[o[3]], o[2])
+                # a callable that dispatches event t is registered again only for events < t (no cycles)
+                if o[3] < len(getters) and (target[o[3]] is None or o[1] < target[o[3]]):
+                    add(o[1], getters[o[3]](), o[2])
                 obs.append([0])
             elif o[0] in (1, 8):
-                del calls[:]
+                del flat[:], bad_args[:]
                 dd = d()
-                name = "e%d" % o[1]
+                name = evname[o[1]]
                 if o[0] == 8:
                     ev = Event()
                     ev.stop_propagation()
-                    ret = dd.dispatch(name, ev)
                 elif step % 2:
                     ev = Event()
-                    ret = dd.dispatch(name, ev)
                 else:
                     ev = None
-                    ret = dd.dispatch(name)
-                seen_events = set(id(c[1]) for c in calls)
-                args_ok = all(c[2] == name and c[3] is dd and isinstance(c[1], Event) for c in calls) and len(seen_events) <= 1 \
-                    and (ev is None or all(c[1] is ev for c in calls))
-                ret_ok = isinstance(ret, Event) and (ret is ev if ev is not None else all(c[1] is ret for c in calls))
-                obs.append([1, [c[0] for c in calls], [int(args_ok), int(ret_ok)]])
+                fr = [name, ev, []]
+                frames.append(fr)
+                try:
+                    ret = dd.dispatch(name) if ev is None else dd.dispatch(name, ev)
+                finally:
+                    frames.pop()
+                args_ok, ret_ok = check_frame(fr, dd, ret)
+                obs.append([1, list(flat), [int(args_ok and not bad_args), int(ret_ok)]])
             elif o[0] == 2:
-                r = d().has_listeners(None if o[1] is None else "e%d" % o[1][0])
+                r = d().has_listeners(None if o[1] is None else evname[o[1][0]])
                 obs.append([2, 1 if r else 0])
             elif o[0] == 3:
-                obs.append([3, [l.cid for l in d().get_listeners("e%d" % o[1])]])
+                obs.append([3, [l.cid for l in d().get_listeners(evname[o[1]])]])
             elif o[0] == 4:
                 r = d().get_listeners()
-                obs.append([4, [[int(k[1:]), [l.cid for l in v]] for k, v in r.items()]])
+                obs.append([4, [[evname.index(k), [l.cid for l in v]] for k, v in r.items()]])
             elif o[0] == 5:
-                l = callables[o[2]] if o[2] < len(callables) else (lambda event, event_name, dispatcher: None)
-                p = d().get_listener_priority("e%d" % o[1], l)
+                l = getters[o[2]]() if o[2] < len(getters) else (lambda event, event_name, dispatcher: None)
+                p = d().get_listener_priority(evname[o[1]], l)
                 obs.append([5, [] if p is None else [p]])
         except Exception as e:
             obs.append(["EXC", type(e).__name__])
@@ -261,10 +374,10 @@ def canon_model(case, obs):
 def oracle(case, obs):
     """The property itself, on the real observations."""
     regs = []   # (ev, prio, callable id, registration index)
-    cal = []    # per callable: (stops, registers)
+    cal = []    # per callable: (stops, registers, dispatches)
 
-    def new(ev, prio, stops, registers):
-        cal.append((stops, registers))
+    def new(ev, prio, stops, registers, dispatches=None):
+        cal.append((stops, registers, dispatches))
         regs.append((ev, prio, len(cal) - 1, len(regs)))
 
     def order(ev):
@@ -273,6 +386,21 @@ def oracle(case, obs):
     def repeated(ev):
         cs = [r[2] for r in regs if r[0] == ev]
         return len(cs) != len(set(cs))
+
+    def run(ev, log, touched):
+        """what a dispatch of ev calls, in call order, dispatches made by the called listeners included: the registrations
+        of ev AS THEY ARE WHEN THIS DISPATCH STARTS, highest priority first, registration order within a priority, up to the
+        first listener that stops; every listener acts (registers / dispatches) when it is called"""
+        touched.add(ev)
+        for r in order(ev):
+            c = r[2]
+            log.append(c)
+            if cal[c][1] is not None:
+                new(cal[c][1][0], cal[c][1][1], False, None)
+            if cal[c][2] is not None:
+                run(cal[c][2], log, touched)
+            if cal[c][0]:
+                break
 
     for o, ob in zip(full_ops(case), obs):
         if ob and ob[0] == "EXC":
@@ -283,32 +411,34 @@ def oracle(case, obs):
             new(o[1], 0, bool(o[2]), None)          # registered without a priority: the default, 0
         elif o[0] == 9:
             new(o[1], o[2], False, (o[3], o[4]))
+        elif o[0] == 10:
+            new(o[1], o[2], bool(o[4]), None, o[3])
         elif o[0] == 6:
-            if o[3] < len(cal):
+            if o[3] < len(cal) and (cal[o[3]][2] is None or o[1] < cal[o[3]][2]):
                 regs.append((o[1], o[2], o[3], len(regs)))
         elif o[0] in (1, 8):
             if ob[2][0] != 1:
                 return "listener-call-arguments"
             if ob[2][1] != 1:
                 return "dispatch-return-value"
-            mine = order(o[1])          # the registrations SO FAR: what a listener registers meanwhile is not among them
-            cut = []
-            if o[0] == 1:
-                for r in mine:
-                    cut.append(r[2])
-                    if cal[r[2]][0]:
-                        break
-            if o[0] == 8 and ob[1] != []:
-                return "stopped-event-reached-a-listener"
-            if o[0] == 1 and not repeated(o[1]) and ob[1] != cut:
-                return "dispatch-order"
-            # a listener of another event, or one registered only during this dispatch, is never called - whatever the multiplicities
-            if any(c not in [r[2] for r in mine] for c in ob[1]):
+            if o[0] == 8:
+                if ob[1] != []:
+                    return "stopped-event-reached-a-listener"
+                continue
+            before = list(regs)                     # the registrations SO FAR: what a listener registers meanwhile is not among them
+            mine = [r[2] for r in order(o[1])]
+            nested = any(cal[c][2] is not None for c in mine)
+            log, touched = [], set()
+            run(o[1], log, touched)
+            if not any(repeated(e) for e in touched) and ob[1] != log:
+                return "nested-dispatch-order" if nested else "dispatch-order"
+            # a listener of another event, or one registered only during this dispatch, is never called - whatever the
+            # multiplicities (with nested dispatches: of none of the events dispatched meanwhile)
+            allowed = set(r[2] for r in regs if r[0] in touched)
+            if not nested:
+                allowed = set(r[2] for r in before if r[0] == o[1])
+            if any(c not in allowed for c in ob[1]):
                 return "dispatch-called-a-listener-not-registered-for-the-event-so-far"
-            # what the called listeners registered takes part from the next dispatch on
-            for c in ob[1]:
-                if c < len(cal) and cal[c][1] is not None:
-                    new(cal[c][1][0], cal[c][1][1], False, None)
         elif o[0] == 3:
             if not repeated(o[1]) and ob[1] != [r[2] for r in order(o[1])]:
                 return "get_listeners-order"
@@ -334,21 +464,34 @@ def oracle(case, obs):
 
 def nontrivial_key(case, obs):
     ops = case["ops"]
-    if sum(1 for o in ops if o[0] in (0, 6, 7, 9)) >= 2 and any(o[0] == 1 for o in ops):
-        return [ops, case.get("via", 0)]
+    if sum(1 for o in ops if o[0] in (0, 6, 7, 9, 10)) >= 2 and any(o[0] == 1 for o in ops):
+        return [ops, case.get("via", 0), case.get("names", 0)]
     return None
+
+
+def _with(case, **kw):
+    d = {k: v for k, v in case.items()}
+    d.update(kw)
+    return d
 
 
 def shrink(case):
     ops = case["ops"]
     for i in range(len(ops)):
-        yield {"ops": ops[:i] + ops[i + 1:], "via": case.get("via", 0)}
+        yield _with(case, ops=ops[:i] + ops[i + 1:])
     if case.get("via", 0):
-        yield {"ops": ops, "via": 0}
+        yield _with(case, via=0)
+    if case.get("names", 0):
+        yield _with(case, names=0)
+    for i, o in enumerate(ops):
+        # a smaller priority
+        if o[0] in (0, 6, 9, 10) and abs(o[2]) > 5:
+            for p in (5, 0, 1 if o[2] > 0 else -1):
+                yield _with(case, ops=ops[:i] + [o[:2] + [p] + o[3:]] + ops[i + 1:])
 
 
 def neighbours(case):
     ops = case["ops"]
     for i in range(len(ops) + 1):
         for a in ([1, 0], [1, 1], [3, 0]):
-            yield {"ops": ops[:i] + [a] + ops[i:], "via": case.get("via", 0)}
+            yield _with(case, ops=ops[:i] + [a] + ops[i:])
